@@ -1,5 +1,432 @@
-//! stub — to be written
-use crate::core::{Acc, Ctx};
-use serde_json::Value;
-pub fn run(_ctx: &Ctx, _acc: &mut Acc) {}
-pub fn replay(_v: &Value) -> Option<(bool, String)> { None }
+//! C12 (b) — the cue-sheet text importer is total: `Cuesheet::parse(total_samples, text)` returns a value or an
+//! error for every text, and every accessor of a sheet that parsed returns; no panic, bounded allocation,
+//! in both build profiles.
+//!
+//! WHAT IS ENUMERATED
+//! * Texts = every sequence of 0..=D lines over the line alphabet `alphabet()` (60 templates: TRACK with numbers
+//!   {01,02,00,99,100,255,256,junk, no mode, bare keyword, indented+CR}; INDEX in MM:SS:FF form with numbers
+//!   {00,01,02,99,100,255,256} and times {00:00:00, 00:01:00 (earlier than 00:02:00), 00:02:00, 00:03:00, ss=60,
+//!   ff=75, 99:59:74, 100:00:00, minutes whose sample count overflows u64, minutes for which mm*75 overflows,
+//!   21-digit minutes}; INDEX with plain sample offsets (the non-CD-DA form) {0, 500, 1000, u64::MAX}; CATALOG
+//!   {13 digits bare / quoted, 3 digits, none, 129 digits, bad character, lone quote, double blank}; ISRC {valid,
+//!   quoted with dashes, none, over-long, non-ASCII straddling a split point, too short}; FLAGS {PRE, DCP, none,
+//!   PRE DCP}; blank, blanks only, REM, FILE, junk word, non-ASCII TITLE, lone quote), lines joined by LF,
+//!   D = 5 in the quick tier and 6 in the thorough tier,
+//!   x total_samples in {0, 588, 588*900000, 588*900000+1, the largest multiple of 588 below 2^64, 2^64-1}.
+//! * Chains: `TRACK 01 AUDIO` + n consecutive INDEX lines, n in {99,100,101,254,255,256}, numbering from 00 or 01,
+//!   in MM:SS:FF and in plain-offset form, followed by nothing or by one line of the alphabet or one of four
+//!   extra INDEX lines, x the same totals (reaches index number 255, which depth 6 cannot).
+//! * On every text that parses: tracks(), track_sample_ranges(), track_byte_ranges for (1 ch, 8 bit),
+//!   (2, 16), (8, 32), display("x.flac").to_string(), catalog_number().to_string(), track_count(),
+//!   lead_in_samples(), is_cdda() - each under its own panic guard.
+//!
+//! PRUNING (the only one used, and why it is sound).  The importer is a single `for line in text.lines()` loop
+//! (src/metadata/mod.rs:3630-3733) that reads the lines in order and leaves at the first offending line (`return
+//! Err`, `?`, or a panic unwinding out of it); code after the loop (missing last track, lead-out) runs only when
+//! every line has been read.  So if the importer stopped INSIDE a prefix p, it never looks at anything after the
+//! offending line and p followed by ANY further lines gives the identical result: the subtree below p is covered by
+//! p's own execution and is not executed again (it is counted in dims.cue_sequences_covered_by_prefix).  Whether
+//! the importer stopped inside p is decided by a probe, not by guessing from the error: the bare line `CATALOG`
+//! makes the loop return CatalogMissingNumber unconditionally (first match arm, mod.rs:3633), so p + "\nCATALOG"
+//! returns CatalogMissingNumber iff the loop got through all of p.  A prefix is pruned only when p failed or
+//! panicked AND the probe returns that same failure / panic instead of the sentinel's error (a p that itself
+//! returns CatalogMissingNumber stopped at its own bare CATALOG line).  Prefixes that parse, or whose error comes
+//! from the end-of-text code, are always expanded.  The argument is audited on every run: below every pruned prefix
+//! of length < 3 the subtree IS executed down to length 3 (so lengths 0..3 are the full product) and each member
+//! must return the prefix's result; any disagreement is reported as C12|cue-parse|prune-audit-mismatch.
+//!
+//! Sharding: sequences of length 0 and 1 are cases of their own; every (total, line1, line2) is one shard unit whose
+//! whole subtree is explored by the shard that owns it.
+use crate::core::{alloc_mark, alloc_peak_since, guarded, panic_loc, Acc, Ctx, CASE_CLOCK};
+use flac_codec::metadata::Cuesheet;
+use serde_json::{json, Value};
+use std::sync::atomic::Ordering;
+
+const TOTALS: [u64; 6] = [0, 588, 588 * 900_000, 588 * 900_000 + 1, (u64::MAX / 588) * 588, u64::MAX];
+const AUDIT_LEN: usize = 3;
+const ALLOC_BOUND: usize = 1 << 20; // the texts are < 64 KiB; anything near a MiB is unbounded growth
+
+/// a line that makes the importer return `SENTINEL_ERR` the moment its loop reaches it, whatever came before
+const SENTINEL: &str = "CATALOG";
+const SENTINEL_ERR: &str = "CatalogMissingNumber";
+
+fn alphabet() -> Vec<String> {
+    let mut a: Vec<String> = Vec::new();
+    for s in [
+        // TRACK
+        "TRACK 01 AUDIO",
+        "TRACK 02 AUDIO",
+        "TRACK 00 AUDIO",
+        "TRACK 99 AUDIO",
+        "TRACK 100 AUDIO",
+        "TRACK 255 AUDIO",
+        "TRACK 256 AUDIO",
+        "TRACK xx AUDIO",
+        "TRACK 01",
+        "TRACK",
+        "  TRACK 01 AUDIO\r",
+        // INDEX, CD-DA form
+        "INDEX 00 00:00:00",
+        "INDEX 01 00:00:00",
+        "\tINDEX 01 00:00:00\r",
+        "INDEX 00 00:02:00",
+        "INDEX 01 00:02:00",
+        "INDEX 02 00:02:00",
+        "INDEX 01 00:01:00",
+        "INDEX 02 00:01:00",
+        "INDEX 01 00:60:00",
+        "INDEX 01 00:00:75",
+        "INDEX 01 99:59:74",
+        "INDEX 02 100:00:00",
+        "INDEX 02 9999999999999:00:00",
+        "INDEX 02 9223372036854775808:00:00",
+        "INDEX 02 999999999999999999999:00:00",
+        "INDEX 99 00:03:00",
+        "INDEX 100 00:03:00",
+        "INDEX 255 00:03:00",
+        "INDEX 256 00:03:00",
+        // INDEX, plain sample offsets (what the non-CD-DA importer reads)
+        "INDEX 01 0",
+        "INDEX 00 1000",
+        "INDEX 01 1000",
+        "INDEX 02 500",
+        "INDEX 02 18446744073709551615",
+        // CATALOG
+        "CATALOG 1234567890123",
+        "CATALOG \"1234567890123\"",
+        "CATALOG 123",
+        "CATALOG",
+        "CATALOG 12345678x0123",
+        "CATALOG \"",
+        "CATALOG  123",
+        // ISRC
+        "ISRC ABCDE7654321",
+        "ISRC \"AA-6Q7-20-00047\"",
+        "ISRC",
+        "ISRC ABCDE76543210000000000000000000000000",
+        "ISRC A\u{c0}BCDE765432",
+        "ISRC 1234",
+        // FLAGS
+        "FLAGS PRE",
+        "FLAGS DCP",
+        "FLAGS",
+        "FLAGS PRE DCP",
+        // other
+        "",
+        "   ",
+        "REM COMMENT \"x\"",
+        "FILE \"x.wav\" WAVE",
+        "junk",
+        "TITLE \"\u{65e5}\u{672c}\"",
+        "\"",
+    ] {
+        a.push(s.to_string());
+    }
+    a.push(format!("CATALOG {}", "1234567890".repeat(13).get(..129).unwrap()));
+    a
+}
+
+#[derive(Clone, Debug, PartialEq)]
+enum Res {
+    Ok,
+    Err(String),
+    Panic(String),
+}
+impl Res {
+    fn class(&self) -> String {
+        match self {
+            Res::Ok => "Ok".into(),
+            Res::Err(e) => format!("Err-{e}"),
+            Res::Panic(p) => format!("panic@{}", panic_loc(p)),
+        }
+    }
+}
+
+/// One execution: parse + (if it parsed) every accessor.  Returns the parse result and the violations found.
+fn run_one(total: u64, text: &str) -> (Res, Vec<(String, String)>) {
+    let mut viol: Vec<(String, String)> = Vec::new();
+    let mark = alloc_mark();
+    let parsed = guarded(|| Cuesheet::parse(total, text));
+    let peak = alloc_peak_since(mark);
+    if peak > ALLOC_BOUND {
+        viol.push(("C12|cue-parse|allocation-unbounded".into(), format!("importing a {}-byte text allocated {} bytes", text.len(), peak)));
+    }
+    let sheet = match parsed {
+        Err(p) => {
+            viol.push((format!("C12|cue-parse|panic@{}", panic_loc(&p)), format!("Cuesheet::parse(total_samples = {total}) panics: {p}")));
+            return (Res::Panic(p), viol);
+        }
+        Ok(Err(e)) => return (Res::Err(format!("{e:?}")), viol),
+        Ok(Ok(c)) => c,
+    };
+    let c = &sheet;
+    let mark = alloc_mark();
+    let mut acc = |name: &str, r: Result<(), String>| {
+        if let Err(p) = r {
+            viol.push((format!("C12|cue-accessor|{name}|panic@{}", panic_loc(&p)), format!("{name} on the sheet imported with total_samples = {total} panics: {p}")));
+        }
+    };
+    acc("tracks", guarded(|| c.tracks().for_each(|t| drop(std::hint::black_box(t)))));
+    acc("track_sample_ranges", guarded(|| c.track_sample_ranges().for_each(|t| drop(std::hint::black_box(t)))));
+    for (ch, bps) in [(1u8, 8u32), (2, 16), (8, 32)] {
+        acc(&format!("track_byte_ranges({ch},{bps})"), guarded(|| c.track_byte_ranges(ch, bps).for_each(|t| drop(std::hint::black_box(t)))));
+    }
+    acc("display", guarded(|| drop(std::hint::black_box(c.display("x.flac").to_string()))));
+    acc("catalog_number", guarded(|| drop(std::hint::black_box(c.catalog_number().to_string()))));
+    acc("track_count", guarded(|| { std::hint::black_box(c.track_count()); }));
+    acc("lead_in_samples", guarded(|| { std::hint::black_box(c.lead_in_samples()); }));
+    acc("is_cdda", guarded(|| { std::hint::black_box(c.is_cdda()); }));
+    let peak = alloc_peak_since(mark);
+    if peak > ALLOC_BOUND {
+        viol.push(("C12|cue-accessor|allocation-unbounded".into(), format!("accessors of a sheet imported from a {}-byte text allocated {} bytes", text.len(), peak)));
+    }
+    (Res::Ok, viol)
+}
+
+fn case_json(total: u64, text: &str) -> Value {
+    json!({"kind": "cue-text", "total_samples": total.to_string(), "text": text})
+}
+
+struct Walk<'a> {
+    alpha: &'a [String],
+    depth: usize,
+    total: u64,
+    acc: &'a mut Acc,
+    cdda: bool,
+}
+
+impl Walk<'_> {
+    fn text(&self, seq: &[usize]) -> String {
+        let mut s = String::new();
+        for (k, &i) in seq.iter().enumerate() {
+            if k > 0 {
+                s.push('\n');
+            }
+            s.push_str(&self.alpha[i]);
+        }
+        s
+    }
+    /// number of proper extensions of a sequence of length `len` within the depth bound
+    fn subtree(&self, len: usize) -> u64 {
+        let a = self.alpha.len() as u64;
+        let mut n = 0u64;
+        let mut p = 1u64;
+        for _ in len..self.depth {
+            p = p.saturating_mul(a);
+            n = n.saturating_add(p);
+        }
+        n
+    }
+    /// execute one sequence, record everything, return its parse result
+    fn exec(&mut self, seq: &[usize]) -> Res {
+        CASE_CLOCK.fetch_add(1, Ordering::Relaxed);
+        let text = self.text(seq);
+        let (res, viol) = run_one(self.total, &text);
+        self.acc.states += 1;
+        self.acc.executions += 1;
+        self.acc.transitions += seq.len() as u64 + if res == Res::Ok { 10 } else { 0 };
+        self.acc.outcome(format!("cue:{}:{}", if self.cdda { "cdda" } else { "noncdda" }, res.class()));
+        for (sig, what) in viol {
+            self.acc.violation(sig, format!("{what}; text {text:?}"), case_json(self.total, &text));
+        }
+        if self.acc.states % 200_000 == 1 {
+            self.acc.sample(case_json(self.total, &text));
+        }
+        res
+    }
+    /// Did the importer stop (error or panic) before the end of `seq`'s last line?  See PRUNING in the header.
+    fn dead(&mut self, seq: &[usize], res: &Res) -> bool {
+        match res {
+            Res::Ok => false,
+            Res::Err(e) if e == SENTINEL_ERR => true,
+            _ => {
+                let mut text = self.text(seq);
+                text.push('\n');
+                text.push_str(SENTINEL);
+                self.acc.dim("cue_sentinel_probes", 1);
+                let probe = match guarded(|| Cuesheet::parse(self.total, &text)) {
+                    Err(p) => Res::Panic(p),
+                    Ok(Err(e)) => Res::Err(format!("{e:?}")),
+                    Ok(Ok(_)) => Res::Ok,
+                };
+                if probe == Res::Err(SENTINEL_ERR.into()) {
+                    return false; // the loop got through every line of `seq`: its result came from the end-of-text code
+                }
+                if &probe != res {
+                    self.acc.violation(
+                        "C12|cue-parse|prune-audit-mismatch",
+                        format!("text {:?} returns {res:?}, with the sentinel line appended it returns {probe:?}: neither the sentinel's error nor the same result", self.text(seq)),
+                        json!({"kind": "cue-prune-audit", "total_samples": self.total.to_string(), "prefix": self.text(seq), "text": text, "sentinel": true}),
+                    );
+                    return false;
+                }
+                true
+            }
+        }
+    }
+    /// explore all proper extensions of `seq`, whose own result is `res`
+    fn below(&mut self, seq: &mut Vec<usize>, res: &Res) {
+        if seq.len() >= self.depth {
+            return;
+        }
+        if self.dead(seq, res) {
+            self.pruned(seq, res);
+            return;
+        }
+        for i in 0..self.alpha.len() {
+            seq.push(i);
+            let r = self.exec(seq);
+            self.below(seq, &r);
+            seq.pop();
+        }
+    }
+    /// `seq` failed inside the line loop: its extensions are covered; audit the claim on short sequences
+    fn pruned(&mut self, seq: &mut Vec<usize>, res: &Res) {
+        if seq.len() >= AUDIT_LEN.min(self.depth) {
+            let n = self.subtree(seq.len());
+            self.acc.dim("cue_sequences_covered_by_prefix", n);
+            return;
+        }
+        for i in 0..self.alpha.len() {
+            seq.push(i);
+            let r = self.exec(seq);
+            self.acc.dim("cue_prune_audit_executions", 1);
+            if &r != res {
+                let text = self.text(seq);
+                let prefix = self.text(&seq[..seq.len() - 1]);
+                self.acc.violation(
+                    "C12|cue-parse|prune-audit-mismatch",
+                    format!("prefix {prefix:?} returns {res:?} but the extended text {text:?} returns {r:?}: the early-exit argument behind the pruning does not hold"),
+                    json!({"kind": "cue-prune-audit", "total_samples": self.total.to_string(), "prefix": prefix, "text": text}),
+                );
+            }
+            self.pruned(seq, res);
+            seq.pop();
+        }
+    }
+}
+
+fn msf(sector: u64) -> String {
+    format!("{:02}:{:02}:{:02}", sector / 4500, (sector / 75) % 60, sector % 75)
+}
+
+/// TRACK 01 + n consecutive INDEX lines starting at number `first`
+fn chain_text(n: usize, first: usize, cdda_form: bool) -> String {
+    let mut s = String::from("TRACK 01 AUDIO");
+    for k in 0..n {
+        let num = first + k;
+        if cdda_form {
+            s.push_str(&format!("\nINDEX {:02} {}", num, msf(k as u64 * 7)));
+        } else {
+            s.push_str(&format!("\nINDEX {:02} {}", num, k * 10));
+        }
+    }
+    s
+}
+
+pub fn run(ctx: &Ctx, acc: &mut Acc) {
+    let t0 = std::time::Instant::now(); // TEMP
+    let alpha = alphabet();
+    let depth = if ctx.quick { 5 } else { 6 };
+    acc.notes.push(format!("cue-text: {} line templates, depth {}, {} total_samples values, profile {}", alpha.len(), depth, TOTALS.len(), ctx.profile));
+    for &total in &TOTALS {
+        let cdda = total % 588 == 0;
+        // length 0 and 1: one case each
+        if ctx.mine() {
+            let mut w = Walk { alpha: &alpha, depth, total, acc, cdda };
+            w.exec(&[]);
+        }
+        for i in 0..alpha.len() {
+            if ctx.mine() {
+                let mut w = Walk { alpha: &alpha, depth, total, acc, cdda };
+                w.exec(&[i]);
+            }
+        }
+        // every (line1, line2) is a shard unit: its owner explores the subtree
+        for i in 0..alpha.len() {
+            for j in 0..alpha.len() {
+                if !ctx.mine() {
+                    continue;
+                }
+                let mut w = Walk { alpha: &alpha, depth, total, acc, cdda };
+                // the length-1 prefix is a case of its own (above); here it is only re-evaluated to learn whether the
+                // importer already stopped in it
+                let (r1, _) = run_one(total, &alpha[i]);
+                let mut seq = vec![i];
+                if w.dead(&seq, &r1) {
+                    seq.push(j);
+                    let r2 = w.exec(&seq);
+                    w.acc.dim("cue_prune_audit_executions", 1);
+                    if r2 != r1 {
+                        let text = w.text(&seq);
+                        w.acc.violation(
+                            "C12|cue-parse|prune-audit-mismatch",
+                            format!("prefix {:?} returns {r1:?} but the extended text {text:?} returns {r2:?}: the early-exit argument behind the pruning does not hold", alpha[i]),
+                            json!({"kind": "cue-prune-audit", "total_samples": total.to_string(), "prefix": alpha[i], "text": text}),
+                        );
+                    }
+                    w.pruned(&mut seq, &r1);
+                } else {
+                    seq.push(j);
+                    let r2 = w.exec(&seq);
+                    w.below(&mut seq, &r2);
+                }
+            }
+        }
+    }
+    // ---- chains
+    let extra = ["INDEX 00 99999999", "INDEX 256 99999999", "INDEX 00 99:00:00", "INDEX 100 99:00:00"];
+    for &total in &TOTALS {
+        for cdda_form in [true, false] {
+            for first in [0usize, 1] {
+                for n in [99usize, 100, 101, 254, 255, 256] {
+                    let base = chain_text(n, first, cdda_form);
+                    let exts: Vec<Option<&str>> = std::iter::once(None).chain(alpha.iter().map(|s| Some(s.as_str()))).chain(extra.iter().map(|s| Some(*s))).collect();
+                    for ext in exts {
+                        if !ctx.mine() {
+                            continue;
+                        }
+                        CASE_CLOCK.fetch_add(1, Ordering::Relaxed);
+                        let text = match ext {
+                            None => base.clone(),
+                            Some(e) => format!("{base}\n{e}"),
+                        };
+                        let (res, viol) = run_one(total, &text);
+                        acc.states += 1;
+                        acc.executions += 1;
+                        acc.transitions += n as u64 + 2;
+                        acc.outcome(format!("cue-chain:{}:{}", if total % 588 == 0 { "cdda" } else { "noncdda" }, res.class()));
+                        for (sig, what) in viol {
+                            let shown: String = if text.len() > 200 { format!("{} … {}", &text[..80], &text[text.len() - 100..]) } else { text.clone() };
+                            acc.violation(sig, format!("{what}; text (TRACK 01 + {n} INDEX lines from {first:02}{}) {shown:?}", if ext.is_some() { " + 1 line" } else { "" }), case_json(total, &text));
+                        }
+                    }
+                }
+            }
+        }
+    }
+    acc.dim(&format!("cue_ms_{}", ctx.profile), t0.elapsed().as_millis() as u64); // TEMP
+}
+
+// TEMP-END
+pub fn replay(v: &Value) -> Option<(bool, String)> {
+    match v["kind"].as_str()? {
+        "cue-text" => {
+            let total: u64 = v["total_samples"].as_str()?.parse().ok()?;
+            let (res, viol) = run_one(total, v["text"].as_str()?);
+            // when the replay file names the signature, that very signature must reproduce
+            let still = match v["signature"].as_str() {
+                Some(sig) => viol.iter().any(|(s, _)| s == sig),
+                None => !viol.is_empty(),
+            };
+            Some((still, format!("parse: {}; violations: {:?}", res.class(), viol)))
+        }
+        "cue-prune-audit" => {
+            let total: u64 = v["total_samples"].as_str()?.parse().ok()?;
+            let (a, _) = run_one(total, v["prefix"].as_str()?);
+            let (b, _) = run_one(total, v["text"].as_str()?);
+            Some((a != b, format!("prefix: {a:?}; extended: {b:?}")))
+        }
+        _ => None,
+    }
+}
